@@ -1660,4 +1660,119 @@ theorem spec_drivers_agree_partial (pre post : List Spec) (k : AccKind) (flow : 
     (driveSplit [pre ++ .acc k :: post] bufsize flow).map (fun s => s.map Prod.snd) = .ok (fillRun c flow) :=
   spec_drivers_agree pre post k flow bufsize hb hscope os hos c hc hsafe
 
+/-! ## 9. A chain as a branch of a `Split` whose other branches are of any type
+
+Sentence 1 says "a branch of a Split": nothing restricts the *other* branches.  `Split.run` knows four branch types
+("fill_compute", "fill_request", "sequence", "source", `splitRunM`); sections 2 and 5 are the case in which all
+branches are chains (`splitRunM_fc_only`).  Here the siblings are arbitrary: a `Sequence` run per buffer, a `Source`
+that yields its own flow, a `FillRequestSeq` that yields after every buffer — before or after the chain, any number. -/
+
+/-- the mixed model with fill_compute branches only is the model of sections 2 and 5 -/
+theorem splitRunM_fc_only (cs : List (Chain σ α)) (bufsize : Option Nat) (xs : List α) :
+    splitRunM (cs.map Branch.fillCompute) bufsize xs = splitRunTagged cs bufsize xs := by
+  simp only [splitRunM, splitRunTagged, initActiveM_fc, splitLoopM_fc]
+
+/-- **Sentence 1, "a branch of a Split", for siblings of any type.**  For every list of branches (any types, any
+order, any number), every `bufsize`, every flow: if `Split.run` completes (an exception in any branch ends the whole
+generator), then the values that come from a fill_compute branch are exactly what its `FillComputeSeq` yields when
+filled alone with the whole flow and computed.  (A changed tree in which a sibling's type decides whether the chain
+gets its own copy of the buffer — adversary candidate C05/3 — breaks the correspondence with this model.) -/
+theorem split_mixed_branch_independent (bs : List (Branch σ α)) (bufsize : Option Nat) (hb : bufsize ≠ some 0)
+    (xs : List α) (hok : (splitRunM bs bufsize xs).term = none)
+    (i : Nat) (hi : i < bs.length) (c : Chain σ α) (hc : bs[i] = .fillCompute c) :
+    project i (splitRunM bs bufsize xs) = (fillRun c xs).vals := by
+  have h := splitLoopM_filter i (chunks bufsize xs) true (initActiveM 0 bs) hok
+  have hf := initActiveM_filter bs 0 i hi
+  simp only [Nat.zero_add] at hf
+  simp only [splitRunM]
+  rw [← h, hf, hc]
+  simp only [Branch.activate]
+  rw [splitLoopM_single_fc, project_tag_same, Active.rest, chunks_flatten bufsize hb xs, fillRun_eq_finish]
+  rfl
+
+/-- … and therefore what the linear `Sequence` of that chain yields, under the hypotheses of `seq_eq_fill` -/
+theorem split_mixed_branch_eq_seq (bs : List (Branch σ α)) (bufsize : Option Nat) (hb : bufsize ≠ some 0)
+    (xs : List α) (hok : (splitRunM bs bufsize xs).term = none)
+    (i : Nat) (hi : i < bs.length) (c : Chain σ α) (hc : bs[i] = .fillCompute c)
+    (hwf : PreWF c.pre) (hacc : AccNoStop c.acc) (hsafe : PreSafe c.pre xs) :
+    project i (splitRunM bs bufsize xs) = (seqRun c xs).vals := by
+  rw [split_mixed_branch_independent bs bufsize hb xs hok i hi c hc, seq_eq_fill c xs hwf hacc hsafe]
+
+/-- a `Source` among the branches yields exactly its own flow, whatever the other branches do -/
+theorem split_mixed_source (bs : List (Branch σ α)) (bufsize : Option Nat) (xs : List α)
+    (hok : (splitRunM bs bufsize xs).term = none)
+    (i : Nat) (hi : i < bs.length) (out : Strm α) (hc : bs[i] = .source out) :
+    project i (splitRunM bs bufsize xs) = out.vals := by
+  have h := splitLoopM_filter i (chunks bufsize xs) true (initActiveM 0 bs) hok
+  have hf := initActiveM_filter bs 0 i hi
+  simp only [Nat.zero_add] at hf
+  simp only [splitRunM]
+  rw [← h, hf, hc]
+  simp only [Branch.activate]
+  rw [splitLoopM_single_src, project_tag_same]
+
+/-- the demonstration of adversary candidate C05/3: `Split([(Variable-like map, End()), (identity, StoreFilled())])`:
+a sequence branch that yields nothing, before a chain that stores what it is filled with -/
+def exStore : Acc (List Int) Int := { init := [], fill := fun s v => .ok (s ++ [v]), compute := fun s => .ok s }
+
+def exMixed : List (Branch (List Int) Int) :=
+  [.sequence (fun s => .ok (endS (mapS (fun v => .ok (v * v)) s))),
+   .fillCompute { pre := [.call (fun v => .ok v)], acc := exStore, post := [] },
+   .source (.ofList [100, 101]),
+   .sequence (fun s => .ok (mapS (fun v => .ok (-v)) s)),
+   .fillRequest { pre := [], acc := exStore, post := [] }]
+
+example : splitRunM exMixed (some 2) [1, 2, 3] =
+    ⟨[(2, 100), (2, 101), (3, -1), (3, -2), (4, 1), (4, 2), (3, -3), (4, 1), (4, 2), (4, 3), (1, 1), (1, 2), (1, 3)],
+      none⟩ := by rfl
+example : project 1 (splitRunM exMixed (some 2) [1, 2, 3]) = [1, 2, 3] := by rfl
+example : project 1 (splitRunM exMixed (some 2) [1, 2, 3])
+    = (fillRun { pre := [.call (fun v => .ok v)], acc := exStore, post := [] } [1, 2, 3]).vals :=
+  split_mixed_branch_independent exMixed (some 2) (by decide) [1, 2, 3] (by rfl) 1 (by decide) _ rfl
+example : project 2 (splitRunM exMixed none []) = [100, 101] :=
+  split_mixed_source exMixed none [] (by rfl) 2 (by decide) _ rfl
+/-- an empty flow: the sequences are run on `[]`, the FillRequestSeq is requested, the source is called at the end -/
+example : splitRunM exMixed (some 2) [] = ⟨[(2, 100), (2, 101)], none⟩ := by rfl
+
+/-! ## 10. "callables": every callable is accepted, whatever else can be said about it
+
+The property's first pre-processing kind is "callables" — what Python's `callable(el)` accepts: functions, lambdas,
+`functools.partial` objects, bound methods, instances with `__call__`, classes, callables implemented in C that have
+no introspectable signature (`int`, `max`, `operator.itemgetter(0)`).  In the model an object is a capability table
+`Caps`; the three theorems say that the conversions look at `callable(el)` (and at the attributes named in the
+docstrings) and at nothing else: for ANY capability table with `callable = true` … (adversary candidate C05/1 makes
+the conversion depend on `inspect.signature`: the real adapters then disagree with `mkFillInto` on the harness's
+callable forms.) -/
+
+/-- `FillInto(el)` accepts every callable that is not a `Split`, and binds its own `fill_into` if it has one, else
+`element.fill(el(value))` -/
+theorem fillInto_accepts_every_callable (c : Caps) (hc : c.callable = true) (hs : c.isSplit = false) :
+    mkFillInto c none = .ok (if c.hasMethod "fill_into" then .method "fill_into" else .callDefault) := by
+  by_cases h : c.hasMethod "fill_into" = true <;> simp [mkFillInto, h, hc, hs]
+
+/-- `Run(el)` / `Sequence(el)` accepts every callable: its own `run` if it has one, else the map over the flow -/
+theorem run_accepts_every_callable (c : Caps) (hc : c.callable = true) :
+    mkRun c none = .ok (if c.hasMethod "run" then .method "run" else .callRun) := by
+  by_cases h : c.hasMethod "run" = true <;> simp [mkRun, h, hc]
+
+/-- `Call(el)` and `SourceEl(el)` accept every callable and call it itself -/
+theorem call_accepts_every_callable (c : Caps) (hc : c.callable = true) :
+    mkCall c none = .ok .self ∧ mkSourceEl c none = .ok .self := by
+  simp [mkCall, mkSourceEl, hc]
+
+/-- a callable object becomes the two faces of the same `Pre.call` in `FillSeq` and in `Sequence`, whatever other
+attributes it has besides `run`, `fill_into` (e.g. a class with `__call__` and any number of other methods) -/
+theorem callable_converts (o : Obj) (hc : o.caps.callable = true) (hs : o.caps.isSplit = false)
+    (hrun : (o.caps.attr "run").callable = false) (hfi : (o.caps.attr "fill_into").callable = false) :
+    o.toPre = .ok (.call o.callDen) ∧ o.toStage = .ok (Pre.call o.callDen).run := by
+  obtain ⟨p, hp, hst⟩ := preKind_converts o (.callable hc hs hrun hfi)
+  have : o.toPre = .ok (.call o.callDen) := by
+    simp [Obj.toPre, hfi, mkFillInto, Caps.hasMethod, hc, hs]
+  rw [this] at hp
+  cases hp
+  exact ⟨this, hst⟩
+
+example : mkFillInto (capsOf [("my", .method), ("__iter__", .method), ("nc", .value)] true) none = .ok .callDefault :=
+  fillInto_accepts_every_callable _ rfl rfl
+
 end Lena.C05
